@@ -81,4 +81,144 @@ theorem lookup_updateByte_other (vals : List (Key × TJValue)) (k k2 : Key) (h :
 theorem kMin_ne_kMax : kMinzoom ≠ kMaxzoom := by decide
 end
 
+
+theorem insertKV_mid {V : Type} (k : Key) (v : V) (P : List (Key × V)) (q : Key × V) (R : List (Key × V))
+    (hP : ∀ p ∈ P, cmpKey p.1 k = .lt) (hq : cmpKey k q.1 = .lt) :
+    insertKV k v (P ++ q :: R) = P ++ (k, v) :: q :: R := by
+  induction P with
+  | nil => obtain ⟨k', v'⟩ := q; simp only [List.nil_append, insertKV]; simp only at hq; rw [hq]
+  | cons p P ih =>
+    obtain ⟨k', v'⟩ := p
+    have h1 : cmpKey k k' = .gt := cmpBytes_gt_of_lt _ _ (hP (k', v') (by simp))
+    simp only [List.cons_append, insertKV, h1]
+    rw [ih (fun x hx => hP x (by simp [hx]))]
+
+theorem insertKV_replace {V : Type} (k : Key) (v v0 : V) (P R : List (Key × V))
+    (hP : ∀ p ∈ P, cmpKey p.1 k = .lt) :
+    insertKV k v (P ++ (k, v0) :: R) = P ++ (k, v) :: R := by
+  induction P with
+  | nil => simp only [List.nil_append, insertKV, cmpKey_refl]
+  | cons p P ih =>
+    obtain ⟨k', v'⟩ := p
+    have h1 : cmpKey k k' = .gt := cmpBytes_gt_of_lt _ _ (hP (k', v') (by simp))
+    simp only [List.cons_append, insertKV, h1]
+    rw [ih (fun x hx => hP x (by simp [hx]))]
+
+/-- inserting a sorted run of smaller keys in front of an existing entry -/
+theorem foldl_insert_before {V : Type} (A P : List (Key × V)) (q : Key × V)
+    (h : SortedKeys (P ++ A ++ [q])) :
+    A.foldl (fun m kv => insertKV kv.1 kv.2 m) (P ++ [q]) = P ++ A ++ [q] := by
+  induction A generalizing P with
+  | nil => simp
+  | cons a A ih =>
+    simp only [List.foldl_cons]
+    have hs : SortedKeys (P ++ (a :: (A ++ [q]))) := by simpa [SortedKeys] using h
+    have hp := List.pairwise_append.1 hs
+    have hPa : ∀ p ∈ P, cmpKey p.1 a.1 = .lt := fun p hp' => hp.2.2 p hp' a (by simp)
+    have haq : cmpKey a.1 q.1 = .lt := by
+      have := (List.pairwise_cons.1 hp.2.1).1 q (by simp)
+      exact this
+    rw [insertKV_mid a.1 a.2 P q [] hPa haq]
+    have := ih (P ++ [a]) (by simpa [SortedKeys] using h)
+    simpa using this
+
+/-- `BTreeMap` built by inserting the entries of a sorted list into a map that already holds one of
+    its keys is the list itself -/
+theorem foldl_insert_sorted_onto {V : Type} (A B : List (Key × V)) (k0 : Key) (w v0 : V)
+    (h : SortedKeys (A ++ (k0, w) :: B)) :
+    (A ++ (k0, w) :: B).foldl (fun m kv => insertKV kv.1 kv.2 m) [(k0, v0)] = A ++ (k0, w) :: B := by
+  rw [List.foldl_append, List.foldl_cons]
+  have hp := List.pairwise_append.1 h
+  have hA : ∀ p ∈ A, cmpKey p.1 k0 = .lt := fun p hp' => hp.2.2 p hp' (k0, w) (by simp)
+  have h1 := foldl_insert_before A [] (k0, v0) (by
+    have : SortedKeys (A ++ [(k0, v0)]) := by
+      refine List.pairwise_append.2 ⟨hp.1, by simp, ?_⟩
+      intro a ha b hb; simp at hb; subst hb; exact hA a ha
+    simpa using this)
+  simp only [List.nil_append] at h1
+  rw [h1, insertKV_replace k0 w v0 A [] hA]
+  have := foldl_insert_sorted B (A ++ [(k0, w)]) (by simpa [SortedKeys] using h)
+  simpa using this
+
+
+variable {M : Type} (nu : TjNum M)
+
+/-- laws of the `u8 ↔ f64` conversions -/
+structure TjLaws : Prop where
+  byte_rt : ∀ b, b < 256 → nu.toByte? (nu.ofByte b) = some b
+  u8_rt : ∀ b, b < 256 → nu.asU8 (nu.ofByte b) = b
+
+def TJValue.WF : TJValue → Prop
+  | .byte b => b < 256
+  | _ => True
+
+theorem mapM_asString (l : List (List Char)) :
+    (l.map (JsonValue.str (N := M))).mapM asString? = some l := by
+  induction l with
+  | nil => rfl
+  | cons x l ih => simp [List.mapM_cons, asString?, ih]
+
+theorem value_roundtrip (laws : TjLaws nu) (x : TJValue) (h : TJValue.WF x) :
+    TJValue.ofJson nu (TJValue.toJson nu x) = some x := by
+  cases x with
+  | list l => simp only [TJValue.toJson, TJValue.ofJson, mapM_asString, Option.map_some]
+  | str s => rfl
+  | byte b => simp [TJValue.toJson, TJValue.ofJson, laws.byte_rt b h]
+
+theorem bounds_roundtrip (b : M × M × M × M) : boundsOfJson (boundsToJson b) = some b := by
+  obtain ⟨a, b, c, d⟩ := b
+  simp [boundsOfJson, boundsToJson, numberVec, List.mapM_cons, asNumber?]
+
+theorem center_roundtrip (laws : TjLaws nu) (c : M × M × Nat) (h : c.2.2 < 256) :
+    centerOfJson nu (centerToJson nu c) = some c := by
+  obtain ⟨a, b, z⟩ := c
+  simp [centerOfJson, centerToJson, numberVec, List.mapM_cons, asNumber?, laws.u8_rt z h]
+
+/-- keys that `from_object` does not route into `values` -/
+def Typed (k : Key) : Prop := k = kBounds ∨ k = kCenter ∨ k = kLayers
+
+theorem foldOpt_values (laws : TjLaws nu) (L : List (Key × TJValue)) (r : TileJSON M)
+    (hk : ∀ p ∈ L, ¬ Typed p.1) (hw : ∀ p ∈ L, TJValue.WF p.2) :
+    foldOpt (fromObjectStep nu) r (L.map fun kv => (kv.1, TJValue.toJson nu kv.2))
+      = some { r with values := L.foldl (fun m kv => insertKV kv.1 kv.2 m) r.values } := by
+  induction L generalizing r with
+  | nil => simp [foldOpt]
+  | cons p L ih =>
+    obtain ⟨k, x⟩ := p
+    have hnt := hk (k, x) (by simp)
+    simp only [Typed, not_or] at hnt
+    simp only [List.map_cons, foldOpt, fromObjectStep, hnt.1, hnt.2.1, hnt.2.2, if_false,
+      value_roundtrip nu laws x (hw (k, x) (by simp)), Option.map_some, Option.bind_some]
+    rw [ih _ (fun q hq => hk q (by simp [hq])) (fun q hq => hw q (by simp [hq]))]
+    simp
+
+theorem foldl_insert_map {V W : Type} (g : V → W) (L : List (Key × V)) (h : SortedKeys L) :
+    L.foldl (fun o kv => insertKV kv.1 (g kv.2) o) [] = L.map fun kv => (kv.1, g kv.2) := by
+  have hs : SortedKeys (L.map fun kv => (kv.1, g kv.2)) := by
+    simpa [SortedKeys, List.pairwise_map] using h
+  have := foldl_insert_sorted (L.map fun kv => (kv.1, g kv.2)) [] (by simpa using hs)
+  rw [List.foldl_map] at this
+  simpa using this
+
+/-- **C17d (partial)**: `from_object(as_object(t)) = t` for every document whose typed fields
+    (`bounds`, `center`, `vector_layers`) are absent: any number of string / list / byte values under
+    any other keys, `values` being what a `BTreeMap` created by `TileJsonValues::default()` holds
+    (strictly sorted, containing the key `tilejson`). -/
+theorem fromObject_asObject_values (laws : TjLaws nu) (A B : List (Key × TJValue)) (w : TJValue)
+    (hs : SortedKeys (A ++ (kTilejson, w) :: B))
+    (hk : ∀ p ∈ A ++ (kTilejson, w) :: B, ¬ Typed p.1)
+    (hw : ∀ p ∈ A ++ (kTilejson, w) :: B, TJValue.WF p.2) :
+    let t : TileJSON M := { bounds := none, center := none, values := A ++ (kTilejson, w) :: B, layers := [] }
+    fromObject nu (asObject nu t) = some t := by
+  intro t
+  have h1 : asObject nu t = t.values.map fun kv => (kv.1, TJValue.toJson nu kv.2) := by
+    simp only [asObject, setOptional, Option.map_none, layersToJson?, List.isEmpty_nil, if_true, t]
+    exact foldl_insert_map (TJValue.toJson nu) _ hs
+  rw [h1]
+  unfold fromObject
+  rw [foldOpt_values nu laws _ _ hk hw]
+  simp only [TileJSON.default, t]
+  rw [foldl_insert_sorted_onto A B kTilejson w _ hs]
+
+
 end VtProofs.TileJson
